@@ -3,6 +3,11 @@ history of init / add-key / snapshot / delete / clean by several users; everythi
 with `written` / `uses` of the Lean model (`sym.run`), and classified by `sym.public`.  Shared by C05 (secrecy verdicts) and
 C14 (scheme conformance).  Worker-side: `run_tagged_history`; parent-side (talks to the driver): `judge`.
 
+History-level restore (C14 `restore_after_run*`): `run_tagged_history(…, restore=True)` restores, after the history, EVERY
+remaining snapshot with EVERY key of the repository using the real code (`_load_snapshots` by name + `restore`), and
+`judge_restores` compares that with `sym.run_restore` (the model's `loadBodies` / `restoreMd` on the store `run` produces, and
+`wfHist` of the history) and with ground truth (the snapshotted tree and its source mtimes; key families).
+
 Client-state worlds (C05): `gen_world` / `run_tagged_world` — several repositories with DIFFERENT encryption settings (and
 re-initialised locations) used from one machine, i.e. through one cache directory, with interleaved commands, one fresh client
 per command.  Each repository (incarnation) is judged against the model of ITS OWN history alone (`runView`, fed with the view
@@ -145,6 +150,8 @@ class TaggedRun:
         self.real_keys = []
         self.model_ops = []
         self.snaps = []
+        self.snap_model = []       # per real snapshot: index of its record in the model's `taken` (None: not mirrored)
+        self.src_mtimes = []       # per real snapshot: {absolute path: st_mtime_ns of the source file when it was taken}
         self.stats = {'snapshots': 0, 'notes': 0, 'keys': 1, 'shared_keys': 0, 'deletes': 0, 'cleans': 0, 'max_files': 0, 'dedup_chunks': 0,
                       'refused_deletes': 0}
         self.init = {'encrypted': encrypted, 'cfg': ps.generic(w.config), 'kdfcfg': None, 'shcfg': None, 'pw': None}
@@ -195,11 +202,14 @@ class TaggedRun:
             for c in s['chunks']:
                 ps.secret(c)
             self.snaps.append(s)
+            self.snap_model.append(None)
+            self.src_mtimes.append(_stat_mtimes(s['files']))
             try:
                 data = ps.data_struct(s['result'].data)
             except T.Unparsed as e:
                 problems.append(('unparsed', 'snapshot data: %r' % (e,)))
                 return
+            self.snap_model[-1] = sum(1 for o in model_ops if o['kind'] == 'snapshot')
             model_ops.append(self._view({'kind': 'snapshot', 'user': op['user'], 'chunks': [ps.secret(c) for c in s['chunks']], 'data': data}))
             stats['snapshots'] += 1
             stats['notes'] += int(op['note'] is not None)
@@ -226,6 +236,50 @@ class TaggedRun:
             if dels:
                 model_ops.append({'kind': 'remove_at', 'idx': upload_indices(w, dels)})
             stats['cleans'] += 1
+
+    def families(self):
+        """key index -> family representative (the key whose private section it carries)"""
+        fam = []
+        for i, k in enumerate(self.w.keys):
+            fam.append(fam[k['base']] if k['shared'] else i)
+        return fam
+
+    def restore_all(self):
+        """after the history: every remaining snapshot × every key, on the real code.  → list of dict(snap, model, user, name,
+        truth {path: bytes}, mtimes {path: ns}, table [terms], by [dict(key, bodies, error, files)])"""
+        ps, w = self.ps, self.w
+        out = []
+        for si, s in enumerate(self.snaps):
+            if s['location'] not in w.backend.objects:
+                continue
+            rec = {'snap': si, 'model': self.snap_model[si], 'user': s['user'], 'name': s['name'], 'truth': dict(s['files']),
+                   'mtimes': self.src_mtimes[si], 'table': [T.expand(ps.bytes_term(bytes(d))) for d in s['result'].chunks], 'by': []}
+            for ki in range(len(w.keys)):
+                ent = {'key': ki, 'bodies': None, 'bodies_error': None, 'error': None, 'files': None}
+                try:
+                    bodies = _list_bodies(w.repo(ki), s['name'])
+                    ent['bodies'] = [{'table': [T.expand(ps.bytes_term(bytes(d))) for d in b['chunks']], 'has_data': b['data'] is not None} for _, b in bodies]
+                except T.Unparsed as e:
+                    ent['bodies_error'] = 'unparsed: %r' % (e,)
+                except Exception as e:  # noqa: BLE001
+                    ent['bodies_error'] = '%s: %s' % (type(e).__name__, str(e)[:120])
+                exc, files, _ = w.restore(ki, snapshot_regex=s['name'])
+                if exc is not None:
+                    ent['error'] = '%s: %s' % (type(exc).__name__, str(exc)[:120])
+                    ent['error_class'] = _err_class(exc)
+                else:
+                    ent['files'] = files
+                rec['by'].append(ent)
+            out.append(rec)
+        self.stats['restores'] = sum(len(r['by']) for r in out)
+        self.stats['remaining_snapshots'] = len(out)
+        return out
+
+    def secrets(self):
+        """sec id -> what it stands for (only what a restore can return: chunk plaintexts, paths, metadata records)"""
+        ps = self.ps
+        return {'bytes': {v: k for k, v in ps.secret_bytes.items()}, 'strings': {v: k for k, v in ps.secret_strings.items()},
+                'json': {v: k for k, v in ps.secret_json.items()}}
 
     def finish(self, encrypt_calls=None):
         """everything uploaded / emitted by this repository, parsed.  `encrypt_calls`: the encryptions performed by THIS repository's
@@ -282,8 +336,41 @@ class TaggedRun:
                 'stdout_terms': stdout_terms, 'stats': stats, 'problems': problems, 'encrypted': self.enc}
 
 
-def run_tagged_history(hist, label='h', views=False):
-    """→ dict(request, real_log, real_keys, real_uses, stdout_terms, stats, problems)"""
+def _stat_mtimes(files):
+    import os
+    out = {}
+    for p in files:
+        try:
+            out[p] = os.stat(os.fsencode(p)).st_mtime_ns
+        except OSError:
+            out[p] = None
+    return out
+
+
+def _list_bodies(repo, name):
+    """what `_load_snapshots(snapshot_regex=name)` yields on the real code: [(location, {'chunks': […], 'data': … | None})]"""
+    async def go():
+        return [(path, body) async for path, body in repo._load_snapshots(snapshot_regex=name)]
+    with R.quiet():
+        return sorted(R.run(go()), key=lambda x: x[0])
+
+
+def _err_class(exc):
+    from replicat import exceptions
+    if isinstance(exc, exceptions.DecryptionError):
+        return 'decryption'
+    if isinstance(exc, exceptions.ReplicatError) and 'corrupted' in str(exc):
+        return 'corrupted'
+    if isinstance(exc, (FileNotFoundError, exceptions.ReplicatError)):
+        return 'missing'
+    if isinstance(exc, (KeyError, IndexError, ValueError, TypeError)):
+        return 'malformed'
+    return 'other:' + type(exc).__name__
+
+
+def run_tagged_history(hist, label='h', views=False, restore=False):
+    """→ dict(request, real_log, real_keys, real_uses, stdout_terms, stats, problems); with `restore=True` also `restores`
+    (`TaggedRun.restore_all`), `secrets`, `families` — the real readers run AFTER everything else was collected"""
     with T.tagged() as reg, R.Scratch(label) as sc:
         ps = T.Parser(reg)
         pw0 = b'pw-0-secret-' + label.encode()
@@ -292,7 +379,12 @@ def run_tagged_history(hist, label='h', views=False):
         run = TaggedRun(reg, ps, w, pw0, hist['encrypted'], views=views)
         for op in hist['ops']:
             run.apply(op)
-        return run.finish()
+        obs = run.finish()
+        if restore:
+            obs['restores'] = run.restore_all()
+            obs['secrets'] = run.secrets()
+            obs['families'] = run.families()
+        return obs
 
 
 def run_tagged_world(world, label='w'):
@@ -454,3 +546,119 @@ def judge(obs, drv):
     unkeyed = [roles[i] for i, ok in enumerate(v['keyed']) if roles[i][0] == 'name' and not ok]
     nonces = [json.dumps(u[1], sort_keys=True) for u in obs['real_uses']]
     return bad, {'nonpublic': nonpublic, 'unkeyed': unkeyed, 'nonce_reuse': len(nonces) - len(set(nonces))}
+
+
+def judge_restores(obs, drv):
+    """parent side of the history-level restore tie.  → (disagreements [str], violations [(sig, what)], stats dict)
+
+    model ↔ code: `sym.run_restore` on the mirrored history — the history must be well formed in the model's sense (`wfHist`: the
+    hypothesis of `C14.restore_after_run`), a snapshot is present in the model's store iff its object is on the real backend, and for
+    every remaining snapshot and every key the model's `loadBodies` / `restoreMd` equal what the real `_load_snapshots` / `restore`
+    returned (chunk tables as terms; files as path → bytes assembled from the model's parts, mtime from the model's metadata record).
+    direct oracle (ground truth): the owner restores exactly the snapshotted tree with the source mtimes and lists table + data; a key of
+    the same family lists the table without data and restores nothing; a key of another family sees nothing."""
+    bad, viol = [], []
+    req = dict(obs['request'], op='sym.run_restore')
+    m = drv.ask(req)
+    if 'error' in m and 'snaps' not in m:
+        return ['driver error: ' + str(m['error'])], [], {}
+    if not m['wf']:
+        bad.append(f'the history the implementation went through is not well formed for the model (ops {m["bad_ops"]}): a removal took a chunk of a remaining '
+                   'snapshot, or a snapshot recorded a duplicate path / a reference outside its chunk table')
+    if not m['names_unique'] or not m['store_is_map']:
+        bad.append(f'model store: names_unique={m["names_unique"]} store_is_map={m["store_is_map"]}')
+    sec = obs['secrets']
+    fam = obs['families']
+    remaining = {r['model']: r for r in obs['restores'] if r['model'] is not None}
+    stats = {'remaining': len(remaining), 'restores': 0, 'owner': 0, 'shared': 0, 'independent': 0, 'files': 0}
+    for k, ms in enumerate(m['snaps']):
+        if ms['present'] != (k in remaining):
+            bad.append(f'snapshot #{k}: present in the model store = {ms["present"]}, on the real backend = {k in remaining}')
+    for k, r in sorted(remaining.items()):
+        if k >= len(m['snaps']):
+            bad.append(f'snapshot #{k} is unknown to the model')
+            continue
+        ms = m['snaps'][k]
+        if ms['user'] != r['user']:
+            bad.append(f'snapshot #{k}: model owner {ms["user"]}, real owner {r["user"]}')
+        if ms['table'] != r['table']:
+            bad.append(f'snapshot #{k}: the chunk table of the model differs from the one replicat reported')
+        if ms['present'] and not ms['as_recorded']:
+            bad.append(f'snapshot #{k}: the model restore by the owner is not what the snapshot recorded (the instance of restore_after_run fails)')
+        for ent in r['by']:
+            j = ent['key']
+            stats['restores'] += 1
+            if j >= len(ms['by']):
+                bad.append(f'snapshot #{k}: key {j} is unknown to the model')
+                continue
+            mb = ms['by'][j]
+            role = 'owner' if j == r['user'] else 'shared' if fam[j] == fam[r['user']] else 'independent'
+            stats[role] += 1
+            if mb['same_family'] != (fam[j] == fam[r['user']]):
+                bad.append(f'snapshot #{k} key {j}: same family in the model = {mb["same_family"]}, by construction = {fam[j] == fam[r["user"]]}')
+            # ---- listing
+            if ent['bodies_error'] is not None:
+                if not isinstance(mb['bodies'], str):
+                    bad.append(f'snapshot #{k} key {j} ({role}): model lists {len(mb["bodies"])} bodies, _load_snapshots raised {ent["bodies_error"]}')
+            elif isinstance(mb['bodies'], str):
+                bad.append(f'snapshot #{k} key {j} ({role}): model listing fails with {mb["bodies"]}, _load_snapshots returned {len(ent["bodies"])} bodies')
+            elif mb['bodies'] != ent['bodies']:
+                bad.append(f'snapshot #{k} key {j} ({role}): model lists {[(len(b["table"]), b["has_data"]) for b in mb["bodies"]]}, '
+                           f'_load_snapshots {[(len(b["table"]), b["has_data"]) for b in ent["bodies"]]} (or other tables)')
+            # ---- restore
+            mr = mb['restore']
+            pred = None
+            if mr['outcome'] == 'ok':
+                try:
+                    pred = {}
+                    for f in mr['files']:
+                        data = b''.join(sec['bytes'][part[0]['sec']][part[1]:part[2]] for part in f['parts'])
+                        md = json.loads(sec['json'][f['md']['sec']])
+                        pred[sec['strings'][f['path']['sec']]] = (data, (md or {}).get('st_mtime_ns'))
+                except (KeyError, TypeError) as e:
+                    bad.append(f'snapshot #{k} key {j}: the model restore returned a term the parser never produced ({e!r})')
+                    pred = None
+            if ent['error'] is not None:
+                if mr['outcome'] == 'ok':
+                    bad.append(f'snapshot #{k} key {j} ({role}): model restore succeeds, implementation raised {ent["error"]}')
+                elif mr['error'] != ent.get('error_class'):
+                    bad.append(f'snapshot #{k} key {j} ({role}): model restore fails with {mr["error"]}, implementation raised {ent["error"]}')
+            elif mr['outcome'] != 'ok':
+                bad.append(f'snapshot #{k} key {j} ({role}): model restore fails with {mr["error"]}, implementation returned normally')
+            elif pred is not None and pred != ent['files']:
+                dif = sorted(p for p in set(pred) | set(ent['files']) if pred.get(p) != ent['files'].get(p))
+                bad.append(f'snapshot #{k} key {j} ({role}): model restore and real restore differ on {len(dif)} file(s), e.g. {dif[0]!r}: '
+                           f'model {_brief(pred.get(dif[0]))} real {_brief(ent["files"].get(dif[0]))}')
+            # ---- ground truth
+            if role == 'owner':
+                if ent['error'] is not None:
+                    viol.append(('c14:history-restore:owner-error', f'snapshot #{k} restored by its own key {j} after the history: {ent["error"]}'))
+                else:
+                    got = {p: v[0] for p, v in ent['files'].items()}
+                    if got != r['truth']:
+                        dif = sorted(p for p in set(got) | set(r['truth']) if got.get(p) != r['truth'].get(p))
+                        viol.append(('c14:history-restore:owner-content', f'snapshot #{k} restored by its own key {j} after the history: {len(dif)} file(s) differ '
+                                                                           f'from the snapshotted tree, e.g. {dif[0]!r}'))
+                    else:
+                        wrong = sorted(p for p, v in ent['files'].items() if r['mtimes'].get(p) is not None and v[1] != r['mtimes'][p])
+                        if wrong:
+                            viol.append(('c14:history-restore:owner-mtime', f'snapshot #{k} restored by its own key {j}: mtime of {wrong[0]!r} is '
+                                                                             f'{ent["files"][wrong[0]][1]}, the source had {r["mtimes"][wrong[0]]}'))
+                    stats['files'] += len(ent['files'])
+                if ent['bodies'] is not None and ent['bodies'] != [{'table': r['table'], 'has_data': True}]:
+                    viol.append(('c14:history-restore:owner-listing', f'snapshot #{k} listed by its own key {j}: {len(ent["bodies"])} bodies / other table / no data'))
+            else:
+                want = [{'table': r['table'], 'has_data': False}] if role == 'shared' else []
+                if ent['error'] is not None or ent['files']:
+                    viol.append((f'c14:history-restore:{role}-restore', f'snapshot #{k} of key {r["user"]} restored with {role} key {j}: '
+                                                                         f'{ent["error"] or "wrote %d file(s)" % len(ent["files"])}'))
+                if ent['bodies'] is not None and ent['bodies'] != want:
+                    viol.append((f'c14:history-restore:{role}-view', f'snapshot #{k} of key {r["user"]} listed with {role} key {j}: '
+                                                                      f'{[(len(b["table"]), b["has_data"]) for b in ent["bodies"]]}, expected {[(len(b["table"]), b["has_data"]) for b in want]}'))
+    return bad, viol, stats
+
+
+def _brief(v):
+    if v is None:
+        return 'absent'
+    return '%d bytes, mtime %s' % (len(v[0]), v[1])
